@@ -189,6 +189,7 @@ SRC_FOLLOW = {
     "unack_closure": ("valid/unack/True", [("tick",)] * 5 + [("fin",), ("tick",)]),
     "ack": ("valid/ack/False", [("tick",)] * 5 + [("ackeof",), ("fin",), ("tick",), ("tick",)]),
     "silence": ("valid", [("tick",)] * 4 + [("expire",)] * 3 + [("tick",)]),
+    "empty_silence": ("empty", [("tick",)] * 3 + [("expire",)] * 3 + [("tick",)]),
 }
 
 
@@ -411,6 +412,9 @@ def run(tier: str) -> int:
     worlds.append(HistDst(mode="ack", nak="imm", closure=True, size=4, seg=2, disposition=True, ack_limit=1, nak_limit=1, hist_depth=hd, follow_modes=("ack",)))
     for mode in ("ack", "unack"):
         worlds.append(HistSrc(mode=mode, closure=True, size=4, seg=2, ack_limit=1, hist_depth=7 if tier == "quick" else 9))
+    # re-sends (positive ACK limit 2) inside the history and inside the follow-ups
+    worlds.append(HistSrc(mode="ack", closure=False, size=2, seg=2, ack_limit=2, hist_depth=7 if tier == "quick" else 9))
+    worlds.append(HistDst(mode="ack", nak="def", closure=False, size=4, seg=2, ack_limit=2, nak_limit=2, hist_depth=hd, follow_modes=("ack",)))
     run_.bounds = {"history_depth_dest": hd, "history_depth_source": 7 if tier == "quick" else 9, "follow_ups_dest": list(DST_FOLLOW), "follow_ups_source": list(SRC_FOLLOW),
                    "sibling_scripts": {k: len(v) for k, v in SIB_SCRIPTS.items()}}
     kw = dict(check_cycles=False, validate_stride=1999, validate_terminals=3, n_samples=1, max_states=2_000_000)
